@@ -68,6 +68,20 @@ def make_doc(used, where, multi=False, figure=False):
     return doc
 
 
+_MISSING = object()
+
+
+def _public_encoder():
+    try:
+        from rtflite.encoding import RTFEncodingEngine
+        enc = getattr(RTFEncodingEngine(), "_encoder", None)
+        if isinstance(enc, UnifiedRTFEncoder):
+            return enc
+    except Exception:  # noqa: BLE001
+        pass
+    return UnifiedRTFEncoder.__new__(UnifiedRTFEncoder)
+
+
 class ProbeEnc:
     """encoding service whose component encoders ask for the colour index of every used colour, like the real ones"""
 
@@ -108,7 +122,10 @@ def run_encode(path, used, where, raise_in_body=False, encode=True):
             raise ValueError("data not sorted")
         return ["CHUNK"]
 
-    me = UnifiedRTFEncoder.__new__(UnifiedRTFEncoder)      # real methods, services replaced by probes
+    # the encoder object is obtained the way the public API obtains it (RTFEncodingEngine), so that an encoder shared
+    # between calls/threads is shared here too; its services are replaced by probes for the duration of this call
+    me = _public_encoder()
+    saved_attrs = {k: me.__dict__.get(k, _MISSING) for k in ("encoding_service", "_encode_body_section", "figure_service")}
     me.encoding_service = enc
     me._encode_body_section = body_section
     me.figure_service = NS(_get_dimension=lambda d, i: 5.0,
@@ -134,6 +151,11 @@ def run_encode(path, used, where, raise_in_body=False, encode=True):
             out = "raised:" + str(e)
     finally:
         figmod.rtf_read_figure = saved
+        for k, v in saved_attrs.items():
+            if v is _MISSING:
+                me.__dict__.pop(k, None)
+            else:
+                me.__dict__[k] = v
     run_encode.last_doc = doc
     return log, getattr(enc, "table", ""), out
 
@@ -206,12 +228,17 @@ def run_interleaved(path, used, where, schedule):
 
 
 def b_op(kind, palette):
-    """what thread B's own encode does to the colour API, seen from A at a preemption: B has started (context set),
-    or B has started and finished (context set, then cleared)"""
+    """what thread B's own encode does, seen from A at a preemption:
+    0 = B has started (context set); 1 = B has started and resolved its colours (set + the lookups its components make);
+    2 = B ran a complete single-table encode (set, lookups, table, clear) through the same public entry points"""
     def started():
         svc.set_document_context(used_colors=list(palette))
 
-    def finished():
+    def resolved():
         svc.set_document_context(used_colors=list(palette))
-        svc.clear_document_context()
-    return started if kind == 0 else finished
+        for n in palette:
+            Utils._get_color_index(n)
+
+    def whole():
+        run_encode(0, [n for n in palette if n in NAMES], [1] * len([n for n in palette if n in NAMES]))
+    return [started, resolved, whole][kind]
